@@ -94,14 +94,62 @@ type c05Variant struct {
 	// path states it (0: none), whether canonical forwarding is known (expected bytes available) and the arrivals to try.
 	pkt       rtr.Pkt
 	ingressIf uint16
-	canonical bool // pkt is the unmodified generator case: exact expected output is known for c.In
+	canonical bool   // the hop fields this router reads are those of the generator case: exact expected output is known for c.In
+	reduced   bool   // explored with the reduced SrcIA x DstIA x host product {local, third}^2 x IPv4
+	cls       string // stable class name for finding keys (default: name)
+}
+
+func (v *c05Variant) class() string {
+	if v.cls != "" {
+		return v.cls
+	}
+	return v.name
+}
+
+// c05LocalIDs: the interface identifiers of the AS under test plus 0 - the values a foreign hop field must NOT be
+// interpreted with (interface identifiers are local to each AS: equal numbers in hop fields of different ASes are
+// coincidences, and a sender is free to produce them since this AS does not authenticate foreign hop fields).
+func c05LocalIDs(cfg *rtr.Cfg) []uint16 {
+	ids := []uint16{0}
+	for _, f := range cfg.Ifs {
+		ids = append(ids, f.ID)
+	}
+	return ids
 }
 
 // c05Variants derives, from one valid case, the path variants explored: the case itself, the "displaced first hop"
 // (a first-hop hop field, ingress 0, moved to position 1 behind a dummy hop) and hop-ingress rewritten to 0 / an
 // unknown interface with a recomputed, valid MAC.
-func c05Variants(c *rtr.Case, key []byte) []c05Variant {
+func c05Variants(c *rtr.Case, key []byte, cfg *rtr.Cfg) []c05Variant {
 	out := []c05Variant{{name: "asis", pkt: c.Pkt.Clone(), ingressIf: c.In.IfID, canonical: true}}
+	// foreign hop fields renumbered: every hop field this router neither validates nor reads the AS ingress from (at the
+	// first hop after a non-peering segment change the previous hop field names it) gets ConsIngress = ConsEgress = x,
+	// for every interface identifier x of THIS AS (owned by this router, by each sibling) and 0. Nothing may change.
+	{
+		skip := map[int]bool{}
+		for _, v := range c.V {
+			skip[v.Hop] = true
+		}
+		v0 := c.V[0]
+		if v0.Inf > 0 && v0.Hop == c05SegStart(&c.Pkt, v0.Inf) && !c.Pkt.Segs[v0.Inf].Peer {
+			skip[v0.Hop-1] = true
+		}
+		for _, x := range c05LocalIDs(cfg) {
+			p := c.Pkt.Clone()
+			n := 0
+			for g := 0; g < p.NumHops(); g++ {
+				if !skip[g] {
+					hp := p.HopRef(g)
+					hp.In, hp.Eg = x, x
+					n++
+				}
+			}
+			if n > 0 {
+				out = append(out, c05Variant{name: fmt.Sprintf("foreign-hops=%d", x), pkt: p, ingressIf: c.In.IfID, canonical: true,
+					reduced: true, cls: "foreign-hop-fields-renumbered"})
+			}
+		}
+	}
 	if c.In.Kind == 0 && c.Pkt.CurrHF == 0 {
 		p := c.Pkt.Clone()
 		dummy := rtr.Hop{In: 940, Eg: 941, Exp: 63, Mac: [6]byte{9, 9, 9, 9, 9, 9}}
@@ -110,7 +158,13 @@ func c05Variants(c *rtr.Case, key []byte) []c05Variant {
 		out = append(out, c05Variant{name: "displaced-first-hop", pkt: p, ingressIf: 0})
 	}
 	if c.In.Kind == 2 {
-		for _, nid := range []uint16{0, 999} {
+		nids := []uint16{0, 999}
+		for _, f := range cfg.Ifs { // ... and to every other sibling-owned interface of the AS (same sibling, other siblings)
+			if f.Owner != 0 && f.ID != c.In.IfID {
+				nids = append(nids, f.ID)
+			}
+		}
+		for _, nid := range nids {
 			p := c.Pkt.Clone()
 			v := c.V[0]
 			// the hop field that names the AS ingress: the current one, or (first hop after a cross-over) the
@@ -134,7 +188,11 @@ func c05Variants(c *rtr.Case, key []byte) []c05Variant {
 				full := rtr.FullHopMAC(key, v.Sigma, v.TS, cur.Exp, cur.In, cur.Eg)
 				copy(cur.Mac[:], full[:6])
 			}
-			out = append(out, c05Variant{name: fmt.Sprintf("hop-ingress=%d", nid), pkt: p, ingressIf: nid})
+			vr := c05Variant{name: fmt.Sprintf("hop-ingress=%d", nid), pkt: p, ingressIf: nid}
+			if nid != 0 && nid != 999 {
+				vr.reduced, vr.cls = true, "hop-ingress=other-sibling-owned-interface"
+			}
+			out = append(out, vr)
 		}
 	}
 	return out
@@ -163,7 +221,7 @@ func TestC05(t *testing.T) {
 		name string
 		h    rtr.Host
 	}{{"v4", rtr.V4("10.0.0.100")}, {"v6", rtr.V6("fd00::100")}, {"v4mapped", rtr.V6("::ffff:10.0.0.100")}, {"svc", rtr.SVC(2)}}
-	var nHarness atomic.Int64
+	var nHarness, histories atomic.Int64
 	harness := func(f string, a ...any) { // only the first few are printed in full
 		if nHarness.Add(1) <= 5 {
 			r.HarnessError(f, a...)
@@ -194,11 +252,12 @@ func TestC05(t *testing.T) {
 			j := jobs[ji]
 			cfg := rtr.StdCfg(j.multi, j.key)
 			rt := rtr.MustBuild(cfg)
+			hp := rt.NewHProc(j.key, now-100)
 			cases := rtr.Cases(&cfg, j.key, now-100, 63)
 			epicTS := uint32((100*time.Second)/(21*time.Microsecond)) - 1
 			for ci := j.lo; ci < len(cases); ci += j.step {
 				c := &cases[ci]
-				for _, vr := range c05Variants(c, j.key) {
+				for _, vr := range c05Variants(c, j.key, &cfg) {
 					// arrivals
 					var arrs []c05Arrival
 					owner := -1 // owner of the hop's ingress interface: 0 this router, k sibling k, -1 nobody
@@ -237,6 +296,9 @@ func TestC05(t *testing.T) {
 						for si, src := range ias {
 							for di, dst := range ias {
 								for hi, h := range hosts {
+									if vr.reduced && (hi > 0 || (si != 0 && si != len(ias)-1) || (di != 0 && di != len(ias)-1)) {
+										continue // reduced product {local, third}^2 x IPv4
+									}
 									if hi > 0 && src != local && !(mc.Thorough() && hi == 1) {
 										// the source host kind can only matter together with a local SrcIA; thorough still
 										// crosses IPv6 with every foreign SrcIA
@@ -264,112 +326,141 @@ func TestC05(t *testing.T) {
 										p = cc.WithEPIC(j.key, epicTS)
 									}
 									raw, lay := p.Serialize()
-									res := rt.Process(raw, ar.in)
+									// history dimension (see rtr.HProc): on the no-defect / single-defect representatives of the
+									// SrcIA x DstIA product the packet is also judged directly after every kind of predecessor packet
+									var res, hres rtr.Result
+									hdiff := ""
+									if hi == 0 && (si == 0 || si == len(ias)-1) && (di == len(ias)-1 || (di == 0 && (last || mc.Thorough()))) {
+										res, hdiff, hres = hp.ProcessHAll(raw, ar.in)
+										histories.Add(int64(len(hp.Dirt)))
+									} else {
+										res = hp.Process(raw, ar.in)
+									}
 									key := fmt.Sprintf("%s|%s|%s|s%d|d%d|%s|pt%d|m%v|k%x", c.Name, vr.name, ar.name, si, di, h.name, j.pt, j.multi, j.key[0])
 									r.Case(key, true)
 									srcLocal, dstLocal := src == local, dst == local
 									defects := c05Spec(ar.kind, first, last, srcLocal, dstLocal)
 									hostOdd := srcLocal && (h.name == "v4mapped" || h.name == "svc")
-									detail := func() map[string]any {
-										return map[string]any{"case": key, "arrival": c05ArrName[ar.kind], "first_hop": first, "last_hop": last,
-											"src_ia": src.String(), "dst_ia": dst.String(), "src_host": h.name, "disp": dispName(res.Fast.Disp),
-											"egress": res.Fast.Egress, "sp": fmt.Sprintf("type=%d code=%d ptr=%d", res.Fast.SPType, res.Fast.SPCode, res.Fast.SPPointer),
-											"spec_defects": fmt.Sprint(defects), "packet": fmt.Sprintf("%x", raw)}
-									}
-									if res.Panic != nil {
-										d := detail()
-										d["panic"] = fmt.Sprint(res.Panic)
-										cls := "panic:src-host-" + h.name
-										r.Violation(cls, d)
-										r.Outcome("panic")
-										rt.VerifStart() // fresh processors: never reuse one that panicked
-										continue
-									}
-									fwd := res.Fast.Disp == router.VerifForward
-									delivered := fwd && res.Fast.Egress == 0
-									// (1) the "only if" half of the iff: local delivery needs external arrival, last hop, local destination
-									if delivered && !(ar.kind == c05Ext && last && dstLocal) {
-										r.Violation(fmt.Sprintf("delivered-locally:%s/last=%v/dstLocal=%v", c05ArrName[ar.kind], last, dstLocal), detail())
-										continue
-									}
-									if len(defects) > 0 {
-										if fwd {
-											cls := vr.name
-											if vr.ingressIf == 0 && !first {
-												cls = "hop-ingress-0-not-first-hop"
-												if !srcLocal {
-													cls += ":spoofed-src-ia" // the case the rule exists for: SrcIA is not checked beyond the first hop
-												}
+									judge := func(res rtr.Result, hist string) {
+										viol := func(k string, d any) {
+											if hist != "" {
+												k += "/after-other-packet"
 											}
-											r.Violation(fmt.Sprintf("forwarded-despite:%v:%s:%s", defects, c05ArrName[ar.kind], cls), detail())
-											continue
+											r.Violation(k, d)
 										}
-										if res.Fast.Disp == router.VerifSlowPath {
-											r.Outcome("rejected-scmp:" + fmt.Sprint(defects))
-											if len(defects) == 1 && !hostOdd && (defects[0] == "src" || defects[0] == "dst") {
-												wc, wp := c05CodeInvalidSrc, c05PtrSrcIA
-												if defects[0] == "dst" {
-													wc, wp = c05CodeInvalidDst, c05PtrDstIA
-												}
-												if res.Fast.SPType != scmpParamProblem || res.Fast.SPCode != wc || int(res.Fast.SPPointer) != wp {
-													d := detail()
-													d["want"] = fmt.Sprintf("type=4 code=%d ptr=%d", wc, wp)
-													r.Violation("scmp-mismatch:"+defects[0]+":"+c05ArrName[ar.kind], d)
-												}
-												if res.SlowErr == nil && res.SlowOut != nil {
-													ty, co, pr, ok := c05Scmp(res.SlowOut)
-													if !ok || ty != scmpParamProblem || co != wc || pr != wp {
-														d := detail()
-														d["scmp_packet"] = fmt.Sprintf("%x", res.SlowOut)
-														r.Violation("scmp-packet-mismatch:"+defects[0], d)
-													} else {
-														r.Outcome("scmp-packed")
+										outc := func(o string) {
+											if hist == "" {
+												r.Outcome(o)
+											}
+										}
+										detail := func() map[string]any {
+											return map[string]any{"history": hist, "case": key, "arrival": c05ArrName[ar.kind], "first_hop": first, "last_hop": last,
+												"src_ia": src.String(), "dst_ia": dst.String(), "src_host": h.name, "disp": dispName(res.Fast.Disp),
+												"egress": res.Fast.Egress, "sp": fmt.Sprintf("type=%d code=%d ptr=%d", res.Fast.SPType, res.Fast.SPCode, res.Fast.SPPointer),
+												"spec_defects": fmt.Sprint(defects), "packet": fmt.Sprintf("%x", raw)}
+										}
+										if res.Panic != nil {
+											d := detail()
+											d["panic"] = fmt.Sprint(res.Panic)
+											cls := "panic:src-host-" + h.name
+											viol(cls, d)
+											outc("panic")
+											rt.VerifStart() // fresh processors: never reuse one that panicked
+											return
+										}
+										fwd := res.Fast.Disp == router.VerifForward
+										delivered := fwd && res.Fast.Egress == 0
+										// (1) the "only if" half of the iff: local delivery needs external arrival, last hop, local destination
+										if delivered && !(ar.kind == c05Ext && last && dstLocal) {
+											viol(fmt.Sprintf("delivered-locally:%s/last=%v/dstLocal=%v", c05ArrName[ar.kind], last, dstLocal), detail())
+											return
+										}
+										if len(defects) > 0 {
+											if fwd {
+												cls := vr.name
+												if vr.ingressIf == 0 && !first {
+													cls = "hop-ingress-0-not-first-hop"
+													if !srcLocal {
+														cls += ":spoofed-src-ia" // the case the rule exists for: SrcIA is not checked beyond the first hop
 													}
 												}
+												viol(fmt.Sprintf("forwarded-despite:%v:%s:%s", defects, c05ArrName[ar.kind], cls), detail())
+												return
 											}
-										} else {
-											r.Outcome("rejected-drop:" + fmt.Sprint(defects))
+											if res.Fast.Disp == router.VerifSlowPath {
+												outc("rejected-scmp:" + fmt.Sprint(defects))
+												if len(defects) == 1 && !hostOdd && (defects[0] == "src" || defects[0] == "dst") {
+													wc, wp := c05CodeInvalidSrc, c05PtrSrcIA
+													if defects[0] == "dst" {
+														wc, wp = c05CodeInvalidDst, c05PtrDstIA
+													}
+													if res.Fast.SPType != scmpParamProblem || res.Fast.SPCode != wc || int(res.Fast.SPPointer) != wp {
+														d := detail()
+														d["want"] = fmt.Sprintf("type=4 code=%d ptr=%d", wc, wp)
+														viol("scmp-mismatch:"+defects[0]+":"+c05ArrName[ar.kind], d)
+													}
+													if res.SlowErr == nil && res.SlowOut != nil {
+														ty, co, pr, ok := c05Scmp(res.SlowOut)
+														if !ok || ty != scmpParamProblem || co != wc || pr != wp {
+															d := detail()
+															d["scmp_packet"] = fmt.Sprintf("%x", res.SlowOut)
+															viol("scmp-packet-mismatch:"+defects[0], d)
+														} else {
+															outc("scmp-packed")
+														}
+													}
+												}
+											} else {
+												outc("rejected-drop:" + fmt.Sprint(defects))
+											}
+											return
 										}
-										continue
+										// no defect by the statement
+										switch {
+										case hostOdd:
+											// statement is silent about unusable source host addresses of the local AS: either verdict, but an
+											// SCMP answer must be InvalidSourceAddress
+											if res.Fast.Disp == router.VerifSlowPath && (res.Fast.SPType != scmpParamProblem || res.Fast.SPCode != c05CodeInvalidSrc) {
+												viol("scmp-mismatch:srchost-"+h.name, detail())
+											}
+											outc("local-src-host-" + h.name + "-" + dispName(res.Fast.Disp))
+										case ar.kind == c05Ext && last && dstLocal:
+											// (2) the "if" half: must be delivered locally, unchanged except for nothing at all
+											if !delivered {
+												viol("not-delivered:ext/last/dstLocal", detail())
+												return
+											}
+											if res.Fast.Remote == nil || !res.Fast.Remote.IP.Equal([]byte{10, 0, 0, 200}) {
+												viol("delivered-to-wrong-host", detail())
+												return
+											}
+											outc("delivered")
+										case canonArrival:
+											if !fwd {
+												harness("valid packet not forwarded: %v", detail())
+												return
+											}
+											if res.Fast.Egress != c.EgressIf {
+												harness("valid packet egress %d, want %d: %v", res.Fast.Egress, c.EgressIf, detail())
+											}
+											if want := c.ExpectedOut(raw, lay); !bytes.Equal(res.Out, want) {
+												harness("valid packet output differs from spec: %v\n got %x\nwant %x", detail(), res.Out, want)
+											}
+											outc("forwarded")
+										default:
+											// allowed by the statement but not a canonical arrival (first hop over a sibling link): record only
+											outc("allowed-" + c05ArrName[ar.kind] + "-" + dispName(res.Fast.Disp))
+											if fwd && res.Fast.Egress != c.EgressIf {
+												viol("forwarded-to-wrong-egress", detail())
+											}
+										}
 									}
-									// no defect by the statement
-									switch {
-									case hostOdd:
-										// statement is silent about unusable source host addresses of the local AS: either verdict, but an
-										// SCMP answer must be InvalidSourceAddress
-										if res.Fast.Disp == router.VerifSlowPath && (res.Fast.SPType != scmpParamProblem || res.Fast.SPCode != c05CodeInvalidSrc) {
-											r.Violation("scmp-mismatch:srchost-"+h.name, detail())
-										}
-										r.Outcome("local-src-host-" + h.name + "-" + dispName(res.Fast.Disp))
-									case ar.kind == c05Ext && last && dstLocal:
-										// (2) the "if" half: must be delivered locally, unchanged except for nothing at all
-										if !delivered {
-											r.Violation("not-delivered:ext/last/dstLocal", detail())
-											continue
-										}
-										if res.Fast.Remote == nil || !res.Fast.Remote.IP.Equal([]byte{10, 0, 0, 200}) {
-											r.Violation("delivered-to-wrong-host", detail())
-											continue
-										}
-										r.Outcome("delivered")
-									case canonArrival:
-										if !fwd {
-											harness("valid packet not forwarded: %v", detail())
-											continue
-										}
-										if res.Fast.Egress != c.EgressIf {
-											harness("valid packet egress %d, want %d: %v", res.Fast.Egress, c.EgressIf, detail())
-										}
-										if want := c.ExpectedOut(raw, lay); !bytes.Equal(res.Out, want) {
-											harness("valid packet output differs from spec: %v\n got %x\nwant %x", detail(), res.Out, want)
-										}
-										r.Outcome("forwarded")
-									default:
-										// allowed by the statement but not a canonical arrival (first hop over a sibling link): record only
-										r.Outcome("allowed-" + c05ArrName[ar.kind] + "-" + dispName(res.Fast.Disp))
-										if fwd && res.Fast.Egress != c.EgressIf {
-											r.Violation("forwarded-to-wrong-egress", detail())
-										}
+									judge(res, "")
+									if hdiff != "" {
+										r.Violation("result-depends-on-processor-history:"+c05ArrName[ar.kind]+":"+vr.class(), map[string]any{"case": key,
+											"difference": hdiff, "packet": fmt.Sprintf("%x", raw), "ingress": fmt.Sprint(ar.in),
+											"fresh": dispName(res.Fast.Disp), "after": dispName(hres.Fast.Disp)})
+										judge(hres, hdiff)
 									}
 								}
 							}
@@ -383,6 +474,7 @@ func TestC05(t *testing.T) {
 		cfg := rtr.StdCfg(true, rtr.KeyA)
 		cs := rtr.Cases(&cfg, rtr.KeyA, now-100, 63)
 		r.Extra["valid_base_cases_multi_br"] = len(cs)
+		r.Extra["packet_x_predecessor_evaluations"] = histories.Load()
 		for i := 0; i < len(cs); i += len(cs)/5 + 1 {
 			raw, _ := cs[i].Pkt.Serialize()
 			r.Sample(map[string]any{"base_case": cs[i].Name, "ingress": fmt.Sprint(cs[i].In), "packet": fmt.Sprintf("%x", raw)})
